@@ -140,6 +140,16 @@ def probe_call(K, P=1, mp=False, orders=None, log=None, seed=99):
         os.environ.pop("CUPCAKE_ENABLE_MULTIPROCESSING", None)
 
 
+def guarded_probe(*a, **k):
+    """the probe call; an exception is an outcome (its type is digested), not a harness failure"""
+    try:
+        return probe_call(*a, **k)
+    except HarnessError:
+        raise
+    except Exception as e:
+        return e
+
+
 def task_reference(task):
     from vlib import lib
     lib.load("nojit")
@@ -154,7 +164,7 @@ def task_schedule(task):
     (K, P, mp, perm, rounds) = task
     log = []
     orders = {r: list(perm) for r in range(rounds)} if perm is not None else None
-    res = probe_call(K, P=P, mp=mp, orders=orders, log=log)
+    res = guarded_probe(K, P=P, mp=mp, orders=orders, log=log)
     tp = log[0] if log else None
     arrivals = list(tp.arrivals) if tp else []
     want = [(r, i) for r in range(rounds) for i in perm] if perm is not None else None
@@ -174,8 +184,8 @@ def task_repeat(task):
     from vlib import lib
     lib.load("nojit")
     (K,) = task
-    a = result_digest(probe_call(K))
-    b = result_digest(probe_call(K))
+    a = result_digest(guarded_probe(K))
+    b = result_digest(guarded_probe(K))
     return a, b
 
 
@@ -238,7 +248,7 @@ def task_history(task):
     (hist,) = task
     for sh in hist:
         history_call(sh)
-    return result_digest(probe_call(2))
+    return result_digest(guarded_probe(2))
 
 
 def run(ctx):
